@@ -6,6 +6,19 @@ props = [json.loads(l) for l in open(os.path.join(ROOT, 'properties.jsonl'))]
 
 # id -> (technique, level text, level note, design ref)
 CHECKS = {
+ 'C07': ("TypeSystem.tla (merge of definitions and extensions, 12 named rules as predicates over the set of definitions, relations, roots) evaluated by TypeSystem_Trace on the projection of the real parser's output; real gqlparser.LoadSchema verdict, relations and closure compared; three-way agreement with generator intent",
+         "Generated valid-by-construction type systems (interfaces implementing interfaces, unions, oneOf inputs, repeatable directives, defaults, custom scalars, nested list/non-null, directives on every type-system location, extensions and extension-only types, custom roots) must load and yield exactly the specification's types, directives, possible-type / implements relations and roots with introspection fields and no dangling reference; the same with one injected violation from a catalogue of 21 fault operators covering every enforced rule must be rejected; 60 hand-written corner cases. 300 (quick) / 6,200 (thorough) documents.",
+         "Trusts TypeSystem.tla as the reading of the rules the statement lists; the abstract document is the projection of parser.ParseSchemas' output (checked by C06); bounded exhaustive enumeration of tiny universes is not built yet (generator-driven only).", "4/C07"),
+ 'C17': ("TypeSystem.tla rules are predicates over the SET of definitions (order-free by construction); TypeSystem_Trace requires LoadSchema's outcome for every permutation x partition into files to equal the specification's outcome for the set, and the error file to hold an involved definition",
+         "100 (quick) / 1,000 (thorough) generated schemas, valid and single-fault, each loaded in base order and under 10 / 50 random permutations of their top-level definitions crossed with random partitions into 1-5 files (extension before base, interface after implementer included).",
+         "The involved-definition set for the error-file clause comes from the generator's fault operator and is only checked when the specification finds exactly one violated rule.", "4/C17"),
+ 'C14': ("Coerce.tla (CoerceVariableValues + input coercion over JSON-like values) with Sound / Idempotent / Identity / Complete theorems model-checked; every case of the bounded universe printed by TLC (terminal-state print) replayed into validate + validator.VariableValues in five Go-kind variants; random deeper cases re-computed by Coerce_Trace",
+         "All types of list depth <= 1 (quick) / 2 (thorough) with every non-null pattern over Int, String, E, In, Any (+ Float, Boolean, ID), conforming values and values with a defect at each depth, defaults valid only through list coercion: 3,000 / ~10^5 cases x 5 Go representations; 3,000 / 60,000 random type-directed cases to list depth 3.",
+         "The scalar kind table is the library's documented one (DESIGN appendix B); __typename keys excluded.", "4/C14"),
+ 'C15': ("ArgMap.tla precedence machine (literal > variable > default, explicit null is a value) with Precedence and VarLaw invariants model-checked; every row of the decision table printed by TLC replayed into Field.ArgumentMap and Directive.ArgumentMap after real validation and variable coercion",
+         "387 rows: two variables (with / without default) x absent / null / supplied, one of nine arguments written as nothing, literal (nested lists / input objects with variables, custom-scalar literals of every kind, numeric literals beyond int64 / float64) or variable; whole argument map compared entry by entry, panics reported.",
+         "Absent variable nested in a literal contributes null; generated-document coverage (C->M) of argument maps is not built yet.", "4/C15"),
+
  'C01': ("TLA+ lexer/budget specifications + Total_Trace.tla validating, per input, outcomes, error positions (InsideInput over the spec's line table) and hook-H1 work counters recorded from the real lexer loop and six parser entry points run in a crash-isolated child process",
          "Every byte string up to 4 (quick) / 5 (thorough) bytes over a 17-byte adversarial alphabet, alone and behind ten prefixes that place the cursor inside escapes, block strings, comments, numbers and argument lists; seeded byte-level mutations of the repository's own test inputs and of generated documents; 22 size-parametrised families to 16 KiB / 64 KiB. A crash, fatal error or hang of the child is attributed to its input and reported; everything that returns is validated by TLC: nil error implies a document, syntax errors carry a line/column inside the input, lexer calls <= next() calls + 1 <= tokens + 2.",
          "Termination / no-panic is an observation of the Go runtime (child process + inactivity watchdog), not a TLC theorem; the time bound is stated on deterministic hook counters. Lexer.tla Progress/Bounds invariants are model-checked in C03.", "4/C01"),
